@@ -67,6 +67,8 @@ enum Sv {
     Int(i64),
     Num(String),
     Str(String),
+    /// a blob (base64 text after %) or a boolean: one spelling each
+    Lit(String),
     Rec(Vec<(String, Option<Sv>)>, Vec<Si>),
 }
 #[derive(Clone, Debug)]
@@ -78,6 +80,7 @@ enum Si {
 fn gen_sv(rng: &mut Rng, depth: u32) -> Sv {
     let top = if depth == 0 { 2 } else { 4 };
     match rng.below(top) {
+        0 if rng.below(5) == 0 => Sv::Lit(rng.pick(&["%AAAA", "%AQID", "%", "%AA==", "true", "false"]).to_string()),
         0 => Sv::Int(*rng.pick(&[0, 1, 2, 3, -1, 10])),
         1 if rng.below(4) == 0 => Sv::Num(rng.pick(&["0.0", "-0.0", "-0", "1.5", "1e1", "10.0", "0x10", "16"]).to_string()),
         1 => Sv::Str(rng.pick(&["a", "b", "x)y", "p,q", "u;v", "m:n", "{", "}", "(", "two words", "q\"r", "@z", "l\nm", ""]).to_string()),
@@ -151,6 +154,7 @@ fn spell_sv(rng: &mut Rng, v: &Sv) -> String {
             _ => t.clone(),
         },
         Sv::Str(t) => spell_str(rng, t),
+        Sv::Lit(t) => t.clone(),
         Sv::Rec(attrs, items) => {
             let mut out = String::new();
             for (name, body) in attrs {
@@ -513,6 +517,38 @@ fn main() {
         if let Some(canon) = canon {
             check(&a, &canon, "spelled_vs_printed", &mut failures);
         }
+    }
+
+    // ---- attribute bodies of two or three leaves of every kind, with and without their braces ----
+    for (a, b) in [
+        ("@tile(%AAAA, 3)", "@tile({%AAAA, 3})"),
+        ("@a(true,false)", "@a({true,false})"),
+        ("@a(%AQID,%AAAA)", "@a({%AQID;%AAAA})"),
+        ("@a(1,%AA==)", "@a({1, %AA==})"),
+        ("@a(\"x\",%)", "@a({x,%})"),
+    ] {
+        check(a, b, "attr_body_leaves", &mut failures);
+    }
+    for _ in 0..args.cases {
+        let n = rng.range(2, 3) as usize;
+        let leaves: Vec<Sv> = (0..n)
+            .map(|_| match rng.below(4) {
+                0 => Sv::Lit(rng.pick(&["%AAAA", "%AQID", "%", "%AA==", "true", "false"]).to_string()),
+                1 => Sv::Int(*rng.pick(&[0, 1, 2, -1])),
+                2 => Sv::Str(rng.pick(&["a", "b", "x)y", "p,q", "two words", ""]).to_string()),
+                _ => Sv::Num(rng.pick(&["0.0", "1.5", "1e1", "16"]).to_string()),
+            })
+            .collect();
+        let items: Vec<Si> = leaves.into_iter().map(Si::V).collect();
+        let inner = spell_items(&mut rng, &items);
+        let inner2 = spell_items(&mut rng, &items);
+        let tag = *rng.pick(&["a", "tile", "tag"]);
+        let bare = format!("@{}({})", tag, inner);
+        let braced = format!("@{}({{{}}})", tag, inner2);
+        check(&bare, &braced, "attr_body_leaves", &mut failures);
+        let nested = format!("{{1,@{}({})}}", tag, inner);
+        let nested2 = format!("{{1, @{}({{{}}})}}", tag, inner2);
+        check(&nested, &nested2, "attr_body_leaves", &mut failures);
     }
 
     // ---- text / boolean keys against the model ----
